@@ -270,6 +270,15 @@ def ack : Bytes := Gen.pkt_PROXY_TUNNEL_ESTABLISHED_RESPONSE_PKT
 /-- state right after a CONNECT request completed: `client.queue(ack)` -/
 def initTunnel (maxSend : Nat) : St := st0 .tunnel maxSend [ack] [] false false
 
+/-- state right after a CONNECT request that shared its TCP segment with early
+    tunnel payload `early` (e.g. a TLS ClientHello sent without waiting for the
+    acknowledgement): the handler hands the parser's leftover to
+    `plugin.on_client_data`, which queues it for the upstream as received
+    (`PxModel/Persist.lean` models the hand-over; here it is the initial state).
+    `early = []` is `initTunnel`. -/
+def initTunnelEarly (maxSend : Nat) (early : Bytes) : St :=
+  { st0 .tunnel maxSend [ack] (if early.isEmpty then [] else [early]) false false with recvC := early }
+
 /-- state right after a plain HTTP request completed: the rebuilt request `req`
     is queued for the upstream, nothing for the client -/
 def initHttp (maxSend : Nat) (req : Bytes) : St := st0 .http maxSend [] [req] false false
